@@ -202,10 +202,12 @@ func c09Spacing(c *w.MonCtx, v *w.SyncView, name string, mut bool) {
 				c.Violate("C09", "C09/spacing: two syncs of one replica set that create or delete pods are closer than reconcileFrequency", fmt.Sprintf("gap %ds < %ds", gap, freq))
 			}
 		}
-		ok := "fail"
+		// "as long as its status writes succeed": a sync none of whose status writes failed - a mutating sync that does not
+		// even attempt one has not had a failing write
+		ok := "ok"
 		for _, call := range c.Out.Log {
-			if call.Kind == "ExtendedDaemonSetReplicaSet" && call.Sub == "status" && call.Err == nil {
-				ok = "ok"
+			if call.Kind == "ExtendedDaemonSetReplicaSet" && call.Sub == "status" && call.Err != nil {
+				ok = "fail"
 			}
 		}
 		if c.Out.Next.Mem == nil {
@@ -311,7 +313,9 @@ func TestC09(t *testing.T) {
 		horizon = 32 * time.Second
 	}
 	// a pod creation rejected by the API server (the status write of that sync still succeeds) is a bounded deviation
+	// the rolling update may also see its active replica set deleted with foreground propagation (it lingers, terminating)
 	ticks := &w.Alpha{NoEDS: true, FreeTicks: []int{1, 5, 10}}
+	ticksFg := &w.Alpha{NoEDS: true, FreeTicks: []int{1, 10}, FgDelete: true}
 	ticksFaults := &w.Alpha{NoEDS: true, FreeTicks: []int{1, 5, 10}, ERSFaults: []string{"reject:n1", "reject:n2"}}
 	timed := func(o scOpt) scOpt {
 		o.noFreq0 = true
@@ -326,12 +330,21 @@ func TestC09(t *testing.T) {
 	s3 := timed(scOpt{name: "S3-timed-canary-validated", nodes: []string{"n1", "n2"}, alpha: &w.Alpha{FreeTicks: []int{10}, Kubectl: []string{"canary-validate"}}, budget: 1,
 		first: []w.Event{evb("setTemplate", edsKey, "B"), ev("R_eds", edsKey), ev("R_eds", edsKey)}})
 	s3.eds = append(s3.eds, w.WithCanary("1", 0, 0, "manual"))
-	for _, o := range []scOpt{s1, s2, s3} {
+	s2fg := timed(scOpt{name: "S2-timed-rolling-update-replica-set-deleted-in-foreground", nodes: []string{"n1", "n2"}, alpha: ticksFg, budget: 1,
+		first: []w.Event{evb("setTemplate", edsKey, "B"), ev("R_eds", edsKey), ev("R_eds", edsKey)}})
+	for _, o := range []scOpt{s1, s2, s3, s2fg} {
 		o.mons = []func(*w.MonCtx){monC09}
 		setupRun = run
 		sc := mkScenario(t, o)
 		start := sc.Init[0].Now
-		sc.Prune = func(s *w.State) bool { return s.Now > start+horizon }
+		hz := horizon
+		if o.name == s2fg.name {
+			hz = 13 * time.Second // the extra deviation multiplies the timed state space: a shorter look suffices for "two syncs one second apart"
+			if h.Thorough() {
+				hz = 16 * time.Second
+			}
+		}
+		sc.Prune = func(s *w.State) bool { return s.Now > start+hz }
 		explore(t, run, sc, 0)
 	}
 	requireAntecedents(run, "C09/creates", "C09/second-mutating-sync")
